@@ -215,6 +215,20 @@ def step (st : St) (j : Json) : St × Json :=
   match (do
     let op ← strField j "op"
     if op == "reset" then pure (({} : St), Json.mkObj [("r", okJson Json.null)]) else
+    if op == "set_attr" then
+      -- property setters: outside the operation alphabet, tied to the code by their own small stream
+      let vid ← natField j "v"
+      let attr ← strField j "attr"
+      let (s', r) ← match attr with
+        | "fields" => pure (opSetFieldsAttr st.s vid (← (← arrField j "value").toList.mapM (·.getStr?)))
+        | "units" => pure (opSetUnitsAttr st.s vid (← optStrListOfJson (fieldD j "value" .null)))
+        | "shape" => pure (opSetShapeAttr st.s vid (← intList (← field j "value")))
+        | _ => throw s!"attr {attr}"
+      let view := match s'.vecs[vid]? with
+        | some v => Json.mkObj [("shape", Json.arr (v.shape.map fun d => Json.num (JsonNumber.fromNat d)).toArray),
+            ("fields", Json.arr (v.fields.map Json.str).toArray), ("units", Json.arr (v.units.map Json.str).toArray)]
+        | none => Json.null
+      pure ({ st with s := s' }, Json.mkObj [("r", resJson r), ("vec", view)]) else
     let o ← opOfJson st j
     let (s', r) := Vector.step st.s o
     let st' : St := { s := s', pool := poolAfter st.pool r }
